@@ -9,6 +9,11 @@ import EaselModel.Alphabet.CustomDegen
 import EaselModel.Alphabet.DegenLemmas
 import EaselModel.Alphabet.ScVecLemmas
 import EaselModel.Alphabet.GuessLemmas
+import EaselModel.Alphabet.TypeLemmas
+import EaselModel.Alphabet.SqTableLemmas
+import EaselModel.Alphabet.ValidateLemmas
+import EaselModel.Alphabet.HistoryLemmas
+import EaselModel.Alphabet.Sq2Lemmas
 /-! # C08 — property theorems (statements + glue only; lemmas live in Alphabet/*.lean)
 
 `G.dna`, `G.rna`, `G.amino`, `G.coins`, `G.dice` are the tables dumped from the code under check on this run
@@ -270,6 +275,262 @@ theorem guess_alphabet_basic (ct : List Int) :
     (Guess.total ct ≤ 10 → Guess.guessAlphabet ct = (false, 0)) :=
   ⟨Guess.guess_status ct, Guess.guess_small ct⟩
 
+
+/-! ## `esl_abc_GuessAlphabet` / `esl_sq_GuessAlphabet`: what an answer guarantees
+
+`Guess.guessZ` is the classifier with the tests `d <= 0.02*n` written `50*d ≤ n`; the driver runs it next to the
+`Float` model on every generated composition (counts up to 2^33, exact 2 % boundaries) and both against the code.
+`Guess.Counts ct`: every counter is in `[0, 2^31)` (the C code reads counters through an `int`). Letter numbers:
+A=0 C=2 G=6 N=13 T=19 U=20 X=23; `Guess.aaonly` = EFIJLOPQZ, `Guess.allcanon` = ACG, `Guess.aacanon` = DHKMRSVWY. -/
+
+/-- never an answer on ten residues or fewer — for arbitrary (even negative) counters -/
+theorem guess_never_on_small (ct : List Int) (h : Guess.total ct ≤ 10) :
+    Guess.guessZ ct = 0 ∧ Guess.guessAlphabet ct = (false, 0) :=
+  ⟨Guess.guessZ_small ct h, Guess.guess_small ct h⟩
+
+/-- answer DNA ⇒ > 10 residues and (all-N special case with > 2000 residues, or: no amino-only letter, ≥ 98 % ACGTN, all of
+    A, C, G, T occur) -/
+theorem guess_dna_guarantee (ct : List Int) (h : Guess.Counts ct) (hg : Guess.guessZ ct = 2) :
+    Guess.total ct > 10 ∧
+    ((Guess.total ct > 2000 ∧ ct.getD 13 0 = Guess.total ct) ∨
+     (Guess.sumOf ct Guess.aaonly = 0 ∧
+      50 * (Guess.total ct - (ct.getD 0 0 + ct.getD 2 0 + ct.getD 6 0 + ct.getD 19 0 + ct.getD 13 0)) ≤ Guess.total ct ∧
+      ct.getD 0 0 > 0 ∧ ct.getD 2 0 > 0 ∧ ct.getD 6 0 > 0 ∧ ct.getD 19 0 > 0)) :=
+  Guess.guessZ_dna ct h hg
+
+/-- answer RNA ⇒ > 10 residues, no amino-only letter, ≥ 98 % ACGUN, all of A, C, G, U occur -/
+theorem guess_rna_guarantee (ct : List Int) (h : Guess.Counts ct) (hg : Guess.guessZ ct = 1) :
+    Guess.total ct > 10 ∧ Guess.sumOf ct Guess.aaonly = 0 ∧
+    50 * (Guess.total ct - (ct.getD 0 0 + ct.getD 2 0 + ct.getD 6 0 + ct.getD 20 0 + ct.getD 13 0)) ≤ Guess.total ct ∧
+    ct.getD 0 0 > 0 ∧ ct.getD 2 0 > 0 ∧ ct.getD 6 0 > 0 ∧ ct.getD 20 0 > 0 :=
+  Guess.guessZ_rna ct h hg
+
+/-- answer amino ⇒ > 10 residues and (an amino-only letter occurs, or: ≥ 98 % of the residues are ACG, DHKMRSVWY, N, T, X;
+    DHKMRSVWY outnumber ACG; at least 15 different letters occur) -/
+theorem guess_amino_guarantee (ct : List Int) (h : Guess.Counts ct) (hg : Guess.guessZ ct = 3) :
+    Guess.total ct > 10 ∧
+    (Guess.sumOf ct Guess.aaonly > 0 ∨
+     (50 * (Guess.total ct - (Guess.sumOf ct Guess.allcanon + Guess.sumOf ct Guess.aacanon + ct.getD 13 0 + ct.getD 19 0 +
+        ct.getD 23 0)) ≤ Guess.total ct ∧
+      Guess.sumOf ct Guess.aacanon > Guess.sumOf ct Guess.allcanon ∧
+      Guess.seen ct Guess.aaonly + Guess.seen ct Guess.allcanon + Guess.seen ct Guess.aacanon + Guess.seen ct [13] +
+        Guess.seen ct [19] ≥ 15)) :=
+  Guess.guessZ_amino ct h hg
+
+/-- **observation (dead rule)**: on counts, the answer is amino iff an amino-only letter (EFIJLOPQZ) occurs in a sample of
+    more than 10 residues that is not the all-N special case. The third documented rule (≥ 98 % amino-acid letters, ≥ 15
+    different residues) is unreachable: without an amino-only letter at most 3+9+1+1 = 14 different letters are counted. -/
+theorem guess_amino_iff_giveaway (ct : List Int) (h : Guess.Counts ct) :
+    Guess.guessZ ct = 3 ↔ Guess.total ct > 10 ∧ ¬ (Guess.total ct > 2000 ∧ ct.getD 13 0 = Guess.total ct) ∧
+      Guess.sumOf ct Guess.aaonly > 0 :=
+  Guess.guessZ_amino_iff ct h
+
+/-- the only answers are unknown/RNA/DNA/amino, and an amino-only letter decides for amino (documented "giveaway") -/
+theorem guess_aaonly_decides (ct : List Int) (h : Guess.Counts ct) (hn : Guess.total ct > 10)
+    (hN : ¬ (Guess.total ct > 2000 ∧ ct.getD 13 0 = Guess.total ct)) (hp : Guess.sumOf ct Guess.aaonly > 0) :
+    Guess.guessZ ct = 3 ∧ ∀ ct', Guess.guessZ ct' ≤ 3 :=
+  ⟨Guess.guessZ_aaonly ct h hn hN hp, Guess.guessZ_le⟩
+
+/-- the counting loop of `esl_sq_GuessAlphabet` on a sequence with at most 10000 letters: counter `l` = number of
+    occurrences of letter `l` in either case (other bytes, also 8-bit ones, are skipped), and the counters satisfy `Counts`
+    (so the three guarantees apply to `esl_sq_GuessAlphabet`) -/
+theorem sq_guess_counts (seq : List Nat) (hb : ∀ c ∈ seq, c < 256) (hn : Guess.nLetters seq ≤ 10000) :
+    (∀ l, l < 26 → (Guess.sqCount seq (List.replicate 26 0) 0).getD l 0 = ((seq.filter fun c => Guess.isLetter c l).length : Int)) ∧
+    Guess.Counts (Guess.sqCount seq (List.replicate 26 0) 0) :=
+  ⟨Guess.sqCount_counts seq hb hn, Guess.sqCount_Counts seq hb hn⟩
+
+example : Guess.Counts [30, 0, 25, 0, 0, 0, 28, 0, 0, 0, 0, 0, 0, 1, 0, 0, 0, 0, 0, 27, 0, 0, 0, 0, 0, 0] :=
+  Guess.counts_of_all _ (by decide)
+example : Guess.guessZ [30, 0, 25, 0, 0, 0, 28, 0, 0, 0, 0, 0, 0, 1, 0, 0, 0, 0, 0, 27, 0, 0, 0, 0, 0, 0] = 2 := by decide
+example : Guess.guessZ [30, 0, 25, 0, 0, 0, 28, 0, 0, 0, 0, 0, 0, 1, 0, 0, 0, 0, 0, 0, 27, 0, 0, 0, 0, 0] = 1 := by decide
+example : Guess.guessZ [30, 0, 25, 0, 1, 0, 28, 0, 0, 0, 0, 0, 0, 1, 0, 0, 0, 0, 0, 27, 0, 0, 0, 0, 0, 0] = 3 := by decide
+example : Guess.guessZ [5, 0, 3, 9, 0, 0, 4, 9, 0, 0, 9, 0, 9, 2, 0, 0, 0, 9, 9, 3, 0, 9, 9, 1, 9, 0] = 0 := by decide
+example : Guess.guessZ [49, 0, 49, 3, 0, 0, 49, 0, 0, 0, 0, 0, 0, 0, 0, 0, 0, 0, 0, 0, 0, 0, 0, 0, 0, 0] = 0 := by decide
+example : Guess.sqGuessZ (str "acgtACGTacgtN") = 2 := by decide
+
+/-! ## alphabet type codes -/
+
+/-- round trip over the enumerated types: `EncodeType (DecodeType t) = t` for unknown, RNA, DNA, amino, coins, dice, custom;
+    other codes have no name (eslEINVAL exception, NULL) -/
+theorem type_roundtrip :
+    (∀ t ∈ [(0 : Int), 1, 2, 3, 4, 5, 6], (AbcType.decodeType t).map AbcType.encodeType = some t.toNat) ∧
+    (∀ t : Int, t < 0 ∨ t > 6 → AbcType.decodeType t = none) :=
+  ⟨AbcType.decode_encode, AbcType.decode_none⟩
+
+/-- unknown strings ⇒ eslUNKNOWN, exactly: the answer is eslUNKNOWN iff the string equals none of the six names up to case -/
+theorem type_unknown_strings (s : List Nat) :
+    AbcType.encodeType s = AbcType.eslUNKNOWN ↔ ∀ p ∈ AbcType.names, AbcType.strcaseEq s p.1 = false :=
+  AbcType.encodeType_unknown_iff s
+
+/-- any other answer is the code whose name the string spells (up to case) -/
+theorem type_encode_sound (s : List Nat) (h : AbcType.encodeType s ≠ AbcType.eslUNKNOWN) :
+    ∃ name, AbcType.decodeType (AbcType.encodeType s) = some name ∧ AbcType.strcaseEq s name = true :=
+  AbcType.encodeType_sound s h
+
+/-- `esl_abc_EncodeTypeMem` (its own `toupper` loop, `esl_memstrcmp_case`) answers as `esl_abc_EncodeType` (`strcasecmp`) -/
+theorem type_mem_agrees (s : List Nat) : AbcType.encodeTypeMem s = AbcType.encodeType s := AbcType.encodeTypeMem_eq s
+
+/-- `esl_abc_ValidateType(t) = eslOK` iff `1 ≤ t ≤ eslNONSTANDARD` iff `t` has a name and is not eslUNKNOWN -/
+theorem type_validate (t : Int) :
+    (AbcType.validateType t = true ↔ 1 ≤ t ∧ t ≤ 6) ∧
+    (AbcType.validateType t = true ↔ t ≠ 0 ∧ (AbcType.decodeType t).isSome = true) :=
+  ⟨AbcType.validateType_iff t, AbcType.validateType_iff_named t⟩
+
+/-- the model of Decode/Encode/ValidateType answers, for the codes 0..8, what the code under check answered on this run -/
+theorem type_tables_regenerated :
+    (List.range 9).map (fun t : Nat => AbcType.decodeType (Int.ofNat t)) = Generated.AlphabetsAux.decodeType ∧
+    (List.range 9).map (fun t : Nat => match AbcType.decodeType (Int.ofNat t) with | some s => AbcType.encodeType s | none => 999)
+      = Generated.AlphabetsAux.encodeOfDecode ∧
+    (List.range 9).map (fun t : Nat => AbcType.validateType (Int.ofNat t)) = Generated.AlphabetsAux.validType ∧
+    Generated.AlphabetsAux.c_eslUNKNOWN = AbcType.eslUNKNOWN :=
+  AbcType.tables_agree
+
+example : AbcType.encodeType (str "AmInO") = 3 ∧ AbcType.encodeType (str "protein") = 0 ∧ AbcType.encodeTypeMem (str "Rna") = 1 := by
+  decide
+
+/-! ## the text-mode switch of `esl_sq_ReverseComplement`, regenerated -/
+
+/-- the hand-written `switch` of text-mode `esl_sq_ReverseComplement` as read off the code on this run (the function is
+    called on all 256 one-byte sequences) is the model's `Sq.compChar`: same case/default decision and same output byte -/
+theorem sq_text_switch_regenerated :
+    Generated.AlphabetsAux.textRevcomp.length = 256 ∧
+    ∀ c, c < 256 → Sq.compChar c = Sq.compCharG c ∧
+      (Generated.AlphabetsAux.textRevcomp.getD c (0, 0)).1 = (Sq.compChar c).getD 78 :=
+  Sq.compChar_regenerated
+
+/-- for EVERY symbol of the DNA and of the RNA alphabet (canonical, gap, all degenerate IUPAC codes, any, `*`, `~`), in
+    upper and in lower case: Textize, complement with the text-mode switch, Digitize = the digital complement; the
+    switch preserves case -/
+theorem sq_text_revcomp_every_symbol :
+    (∀ comp ∈ G.dna.complement, Sq.TextCompSymbols G.dna comp) ∧ (∀ comp ∈ G.rna.complement, Sq.TextCompSymbols G.rna comp) := by
+  decide +kernel
+
+/-- the switch has a case for every character the DNA / RNA input map accepts except the synonym `I`/`i` (inosine, read
+    as A by the digital alphabets; text mode answers `N` + eslEINVAL) -/
+theorem sq_text_switch_covers_alphabet :
+    ∀ a ∈ [G.dna, G.rna], ∀ c, c < 128 → a.cIsValid c = true → (Sq.compChar c).isSome = true ∨ c = 73 ∨ c = 105 := by
+  decide +kernel
+
+/-! ## `esl_abc_ValidateSeq`, `esl_sq_Digitize`, `esl_abc_ConvertDegen2X`, the Expect ScVec filler -/
+
+/-- `esl_abc_ValidateSeq(a, seq, L, errbuf)` returns eslOK iff no byte is bad (with an alphabet: not `esl_abc_CIsValid`,
+    which excludes ignored characters and bytes ≥ 0x80; without one: not 7-bit); otherwise eslEINVAL, and the message is
+    "invalid char C at pos P" for one bad byte or "N invalid chars (including C at pos P)" for N > 1, with N the number of
+    bad bytes, C the first of them and P its 1-based position -/
+theorem validateseq_spec (a : Option Alphabet) (seq : List Nat) :
+    (validateSeqMsg a seq =
+      let nbad := (seq.filter (isBad a)).length
+      let p := firstBad a seq
+      if nbad = 0 then (.ok, [])
+      else if nbad = 1 then (.einval, str "invalid char " ++ [seq.getD p 0] ++ str s!" at pos {p+1}")
+      else (.einval, str s!"{nbad} invalid chars (including " ++ [seq.getD p 0] ++ str s!" at pos {p+1})")) ∧
+    ((validateSeqMsg a seq).1 = .ok ↔ ∀ c ∈ seq, isBad a c = false) :=
+  ⟨validateSeqMsg_spec a seq, validateSeq_ok_iff a seq⟩
+
+/-- `esl_sq_Digitize`: eslOK iff every character is valid for `esl_abc_ValidateSeq`; then the digital sequence has exactly
+    one code per character (`sq->n` stays right: ignored characters are rejected by the validation, none is dropped) and
+    the second-stage `esl_abc_Digitize` cannot fail; otherwise eslEINVAL and the sequence is left in text mode -/
+theorem sq_digitize_spec (a : Alphabet) (seq : List Nat) :
+    Sq.sqDigitize a seq = (if seq.all a.cIsValid then .ok (mkDsq (seq.map a.inmapAt)) else .error .einval) ∧
+    Sq.validateSeq a seq = (validateSeqMsg (some a) seq).1 :=
+  ⟨sqDigitize_spec a seq, sqValidateSeq_eq a seq⟩
+
+/-- `esl_abc_ConvertDegen2X` (and `esl_sq_ConvertDegen2X`): every degenerate code becomes `any`, all other codes and the
+    sentinels stay; the map is idempotent and keeps codes valid -/
+theorem convert_degen2x_spec (a : Alphabet) (h : a.K + 4 ≤ a.Kp) (codes : List Nat) (hs : SENTINEL ∉ codes) :
+    a.convertDegen2X (mkDsq codes) = some (mkDsq (codes.map fun x => if a.xIsDegenerate x then a.unknown else x)) ∧
+    ∀ x, (let f := fun x => if a.xIsDegenerate x then a.unknown else x
+          f (f x) = f x ∧ (a.xIsDegenerate x = false → f x = x) ∧ (x < a.Kp → f x < a.Kp)) :=
+  ⟨convertDegen2X_spec a codes hs, degen2X_idem a h⟩
+
+/-- `esl_abc_{F,D}ExpectScVec`: exactly the degenerate slots `K < x ≤ Kp-3` are filled, each with the `p`-weighted mean of
+    the canonical scores over the set of `x`; all other slots untouched; no out-of-bounds access -/
+theorem expect_scvec_spec (a : Alphabet) (h : a.WFDegen) (hK : a.K + 4 ≤ a.Kp) (sc p : List ℚ) (hl : sc.length = a.Kp)
+    (hp : a.K ≤ p.length) :
+    ∃ r, a.expectScVec sc p = some r ∧ r.length = a.Kp ∧
+      ∀ x, r.getD x 0 = if a.K < x ∧ x + 3 ≤ a.Kp
+        then ((a.degenSet x).map fun i => sc.getD i 0 * p.getD i 0).sum / ((a.degenSet x).map fun i => p.getD i 0).sum
+        else sc.getD x 0 :=
+  expectScVec_spec a h hK sc p hl hp
+
+example : G.dna.convertDegen2X (mkDsq [0, 5, 4, 15, 16, 11]) = some (mkDsq [0, 15, 4, 15, 16, 15]) := by decide +kernel
+example : (validateSeqMsg (some G.dna) (str "AC!G?")).1 = .einval := by decide +kernel
+example : Sq.sqDigitize G.dna (str "acgn") = .ok (mkDsq [0, 1, 2, 15]) := by decide +kernel
+
+/-! ## custom alphabets: histories of constructor calls -/
+
+/-- **`WF` is preserved by EVERY history** of `SetEquiv / SetCaseInsensitive / SetDegeneracy / SetIgnored` calls (any
+    arguments, statuses not checked between calls) on a `CreateCustom` alphabet over distinct 7-bit symbols, provided no
+    `SetIgnored` names a symbol; sizes and symbol string never change; one status per call -/
+theorem custom_history_wf (syms : List Nat) (K : Nat) (hnd : syms.Nodup) (hascii : ∀ s ∈ syms, s < 128)
+    (hK : 1 ≤ K) (hKp : K + 4 ≤ syms.length) (h250 : syms.length ≤ 250) (a : Alphabet)
+    (h : createCustom syms K syms.length = some a) (hist : List Call) (hs : ∀ c ∈ hist, c.spares syms) :
+    (a.run hist).2.WF ∧ (a.run hist).2.K = K ∧ (a.run hist).2.Kp = syms.length ∧ (a.run hist).2.sym = syms ∧
+    (a.run hist).1.length = hist.length := by
+  obtain ⟨a', h1, hw, e1, e2, e3, _⟩ := createCustom_wf syms K hnd hascii hK hKp h250
+  rw [h] at h1; cases h1
+  obtain ⟨r1, r2, r3, r4⟩ := run_fields hist a
+  exact ⟨run_wf hist a hw (fun c hc => by rw [e3]; exact hs c hc), r1.trans e1, r2.trans e2, r3.trans e3, r4⟩
+
+/-- … and after every history (no side condition at all) the order convention still holds: canonical residues denote
+    themselves, `any` all `K` residues — `SetDegeneracy` can only ever touch the rows `K < x < Kp-3` -/
+theorem custom_history_order (syms : List Nat) (K : Nat) (a : Alphabet) (hK : 1 ≤ K) (hKp : K + 4 ≤ syms.length)
+    (h : createCustom syms K syms.length = some a) (hist : List Call) :
+    (∀ x, x < K → (a.run hist).2.degenSet x = [x] ∧ (a.run hist).2.ndegen.getD x 0 = 1) ∧
+    (a.run hist).2.degenSet (syms.length - 3) = List.range K ∧ (a.run hist).2.ndegen.getD (syms.length - 3) 0 = K :=
+  run_order syms K a hK hKp h hist
+
+/-- documented statuses: CreateCustom fails (NULL) iff the string length is not Kp, Kp < K+4 or K = 0; SetEquiv is eslOK iff
+    the new character is not yet a symbol and the target is one (else eslEINVAL, alphabet unchanged) -/
+theorem custom_create_setequiv_status (a : Alphabet) (syms : List Nat) (K Kp sym c : Nat) (hs : sym ≠ 0) (hc : c ≠ 0) :
+    (createCustom syms K Kp = none ↔ syms.length ≠ Kp ∨ Kp < K + 4 ∨ K = 0) ∧
+    ((a.setEquiv sym c).1 = .ok ↔ sym ∉ a.sym ∧ c ∈ a.sym) ∧
+    ((a.setEquiv sym c).1 ≠ .ok → (a.setEquiv sym c).1 = .einval ∧ (a.setEquiv sym c).2 = a) ∧
+    ((a.setEquiv sym c).1 = .ok → (a.setEquiv sym c).2 = { a with inmap := a.inmap.set sym (a.sym.idxOf c) }) :=
+  ⟨createCustom_none_iff syms K Kp, setEquiv_status a sym c hs hc⟩
+
+/-- SetDegeneracy is eslOK iff the symbol is one of the degenerate symbols `K < x < Kp-3` (not canonical, gap, `any`,
+    nonresidue, missing or foreign) and every listed residue is a canonical symbol, else eslEINVAL;
+    SetCaseInsensitive raises eslECORRUPT at a letter iff both cases are valid and map to different codes -/
+theorem custom_setdegeneracy_caseins_status (a : Alphabet) (c : Nat) (ds : List Nat) (lc : Nat) :
+    ((a.setDegeneracy c ds).1 = .ok ↔
+      ∃ x, a.strchrSym c = some x ∧ a.K < x ∧ x + 3 < a.Kp ∧ ∀ d ∈ ds, ∃ y, a.strchrSym d = some y ∧ y < a.K) ∧
+    ((a.setDegeneracy c ds).1 = .ok ∨ (a.setDegeneracy c ds).1 = .einval) ∧
+    (a.caseStep lc = none ↔ a.cIsValid lc = true ∧ a.cIsValid (toUpper lc) = true ∧ a.inmapAt (toUpper lc) ≠ a.inmapAt lc) ∧
+    (a.setCaseInsensitive.1 = .ok ∨ a.setCaseInsensitive.1 = .ecorrupt) :=
+  ⟨(setDegeneracy_status a c ds).1, (setDegeneracy_status a c ds).2, caseStep_none_iff a lc, caseLoop_status _ a⟩
+
+
+/-! ## growing a sequence residue by residue, checksum, residue counts (esl_sq.c) -/
+
+/-- `esl_sq_CreateDigital` + `esl_sq_XAddResidue` per code + the terminating sentinel = `sentinel, codes, sentinel` with
+    `n = |codes|`; with the allocation size in the model (`esl_sq_Grow`: 256 cells, doubled on demand), no store is ever
+    outside the allocation. Text mode (`esl_sq_Create` + `esl_sq_CAddResidue` + NUL) likewise. -/
+theorem sq_add_residue_spec (codes bytes : List Nat) (hs : SENTINEL ∉ codes) (hb : 0 ∉ bytes) :
+    (∃ g, (Sq.addAll Sq.xAddResidue Sq.createDigital codes).bind (fun g => Sq.xAddResidue g SENTINEL) = some g ∧
+      g.buf = mkDsq codes ∧ g.n = codes.length ∧ g.n + 2 ≤ g.salloc) ∧
+    (∃ g, (Sq.addAll Sq.cAddResidue Sq.createText bytes).bind (fun g => Sq.cAddResidue g 0) = some g ∧
+      g.buf = bytes ++ [0] ∧ g.n = bytes.length ∧ g.n + 1 ≤ g.salloc) :=
+  ⟨Sq.xAdd_spec codes hs, Sq.cAdd_spec bytes hb⟩
+
+/-- `esl_sq_CountResidues` (digital mode, `K`-long vector, valid codes, range inside the sequence): counter `y` grows by the
+    sum over the positions `start … start+L-1` of the position's share for `y` — 1 for the residue itself, `1/|set|` for
+    each member of a degenerate code's set, 0 for gap, nonresidue, missing; no access outside `f[0..K-1]` -/
+theorem sq_count_residues_spec (a : Alphabet) (h : a.WFDegen) (codes : List Nat) (hv : ∀ x ∈ codes, x < a.Kp)
+    (start L : Nat) (hs : 1 ≤ start) (hr : start + L ≤ codes.length + 1) (f : List ℚ) (hf : f.length = a.K) (y : Nat) :
+    ∃ f', Sq.countResidues a (mkDsq codes) codes.length start L f = some (some f') ∧ f'.length = a.K ∧
+      f'.getD y 0 = f.getD y 0 + (((codes.drop (start - 1)).take L).map fun x => Sq.share a x y).sum :=
+  Sq.countResidues_spec a h codes hv start L hs hr f hf y
+
+/-- `esl_sq_Checksum`: on 7-bit text the text-mode checksum is the same function of the bytes as the digital-mode checksum
+    is of the codes (the two modes differ only through the values summed; bytes ≥ 0x80 are sign-extended in text mode) -/
+theorem sq_checksum_ascii (bytes : List Nat) (h : ∀ c ∈ bytes, c < 128) :
+    Sq.checksumText bytes = Sq.checksumDigital bytes := Sq.checksumText_ascii bytes h
+
+example : Sq.countResidues G.dna (mkDsq [0, 5, 4, 15]) 4 1 4 ([0, 0, 0, 0] : List ℚ) = some (some [7/4, 1/4, 3/4, 1/4]) := by
+  decide +kernel
+example : Sq.countResidues G.dna (mkDsq [0, 5, 4, 15]) 4 2 4 ([0, 0, 0, 0] : List ℚ) = none := by decide +kernel
+
 /-! ## degenerate scores and counts (over ℚ: the code as a rational function; IEEE rounding is L0, compared bit-exactly
       against the real code by the correspondence run) -/
 
@@ -338,6 +599,8 @@ example : Built demoCustom := by
   have h0 : createCustom (str "ACGT-N*~") 4 8 = some ((createCustom (str "ACGT-N*~") 4 8).getD G.dna) := by decide +kernel
   exact Built.caseins _ (Built.equiv _ (Built.equiv _ (Built.equiv _
     (Built.create (str "ACGT-N*~") 4 (by decide) (by decide) (by decide) (by decide) (by decide) _ h0) _ _) _ _) _ _)
+example : (demoCustom.run [.equiv 50 65, .degen 78 [65], .caseins, .ignored [32, 9], .degen 65 [67], .equiv 65 67]).1 =
+    [.ok, .einval, .ok, .ok, .einval, .einval] := by decide +kernel
 example : demoCustom.digitize (str "a1&") = (.ok, [255, 0, 4, 7, 255]) := by decide +kernel
 example : G.dna.WFDegen ∧ G.dna.xIsResidue 5 = true ∧ G.dna.xIsDegenerate 5 = true := by decide +kernel
 example : G.dna.WF := by decide +kernel
